@@ -420,3 +420,59 @@ def multiples_along_histories(tier, rng, rep):
         rep.case(key=(t,), nontrivial=True, sample=inp if t == 0 else None)
         if len(rep.failures) >= 3:
             return
+
+
+@bounded(P, "states_with_unusual_names", functions=[A + "FSA.initial_accepted_subword", A + "FSA.initial_rejected_subword", A + "FSA.accepts", A + "FSA.follow_word", A + "FSA.enumerate_words"],
+         note="automata with a state literally named None (also 0, '', (), False-like names) that is entered by accepted words: the longest-accepted-prefix queries, the acceptance test, the "
+              "walk and the enumerators agree (the set model's path enumeration, which needs no 'undefined' marker, is the oracle)")
+def states_with_unusual_names(tier, rng, rep):
+    N = 150 if tier == 'thorough' else 40
+    rep.rule = f"{N} random automata on 3..5 states named from [None, 0, '', (), 'x', (0, None)] over {{a, b}}; explicit keys and hidden targets; every word to length 4 from the default start state"
+    rep.bound = f"{N} automata x 31 words"
+    pool = [None, 0, "", (), "x", (0, None)]
+    for t in range(N):
+        nv = int(rng.integers(3, 6))
+        names = [pool[i] for i in rng.permutation(len(pool))[:nv]]
+        if None not in names:
+            names[-1] = None
+        start = next(nm for nm in names if nm is not None)
+        d = {}
+        for v in names:
+            d[v] = {l: names[int(rng.integers(0, nv))] for l in ["a", "b"] if rng.random() < 0.8}
+        if rng.random() < 0.5:
+            d.pop(None, None)           # None only as a hidden target
+            if not any(w is None for nb in d.values() for w in nb.values()):
+                d[start]["a"] = None
+        if start not in d:
+            d[start] = {"a": None}
+        inp = {"graph_dict": {repr(k): {l: repr(w) for l, w in nb.items()} for k, nb in d.items()}, "start": repr(start)}
+
+        def body():
+            F = fsa.FSA(copy.deepcopy(d), [start])
+            M = Model.from_graph_dict(d)
+            acc = {0: {(): start}}
+            for n in range(1, 5):
+                acc[n] = {w: e for w, e in M.paths(start, n)}
+            for n in range(0, 5):
+                for w in itertools.product(["a", "b"], repeat=n):
+                    word = "".join(w)
+                    k = max(j for j in range(n + 1) if w[:j] in acc[j])
+                    if F.accepts(word) != (k == n):
+                        rep.fail("acceptance_agrees_with_the_walk", f"accepts({word!r}) = {F.accepts(word)}", {**inp, "word": word}); return
+                    got = F.initial_accepted_subword(word)
+                    if got != word[:k]:
+                        rep.fail("initial_accepted_subword", f"{word!r}: got {got!r}, the longest accepted prefix is {word[:k]!r} (it ends in state {acc[k][w[:k]]!r})", {**inp, "word": word}); return
+                    rej = F.initial_rejected_subword(word)
+                    want = word[:k + 1] if k < n else ""
+                    if k < n and rej != want:
+                        rep.fail("initial_rejected_subword", f"{word!r}: got {rej!r} expected {want!r}", {**inp, "word": word}); return
+                    if k == n and F.follow_word(word) != acc[n][w] and not (F.follow_word(word) is None and acc[n][w] is None):
+                        rep.fail("follow_word_end_state", f"{word!r}", {**inp, "word": word}); return
+            own = sorted(F.enumerate_words(3))
+            want_all = sorted("".join(w) for n in range(4) for w in acc[n])
+            if own != want_all:
+                rep.fail("enumerate_words", f"{own} vs {want_all}", inp)
+        rep.attempt("operations_run", inp, body)
+        rep.case(key=(t,), nontrivial=True, sample=inp if t == 0 else None)
+        if len(rep.failures) >= 3:
+            return
